@@ -324,7 +324,7 @@ class EnvView:
         if name not in self._env:
             raise Unsupported('contract refers to variable %r which is not bound at this point' % name)
         v = self._env[name]
-        if isinstance(v, (IntV, BoolV)):
+        if isinstance(v, (IntV, BoolV, TermV)):
             return v.t
         return v
 
